@@ -589,3 +589,30 @@ Theorem C05_memoised_index_refuted :
   toc_by_id (m_table m2) 301 = Some (mkT 1 301 1).
 Proof. exact ex_memoised_index_refuted. Qed.
 Print Assumptions C05_memoised_index_refuted.
+
+(* ---------------------------------------------------------------- packets carry a block id (wave 17) *)
+(* a packet for block id i reaches only a configuration of log_blocks whose CURRENT id is i: the lookup of
+   every acknowledgement (C05_flags_follow_acks: `addressed`) and of every data packet *)
+Theorem C05_find_block_current_id : forall s id h,
+  find_block s id = Some h -> c_id (get s h) = id /\ In h (s_blocks s).
+Proof. exact find_block_current_id. Qed.
+Print Assumptions C05_find_block_current_id.
+
+Theorem C05_logdata_only_current_id : forall s data h ts vals,
+  In (OData h ts vals) (snd (fst (on_packet s g_chan_logdata data))) -> exists r, data = c_id (get s h) :: r.
+Proof. exact logdata_only_current_id. Qed.
+Print Assumptions C05_logdata_only_current_id.
+
+(* the same object added again in one session gets a new id; data and duplicated STOP/DELETE acknowledgements
+   that carry the old id change nothing and deliver nothing; an id -> object map that keeps the old id
+   (seeded/C05-q) would apply them to the running block *)
+Theorem C05_stale_id_map_refuted :
+  let s := final init_st ex_readd_same_session in
+  c_id (get s 0) = 2 /\ flags (get s 0) = (true, true) /\
+  find_block s 1 = None /\ find_block s 2 = Some 0%nat /\
+  on_packet s 2 [1; 9; 9; 9; 90] = (s, [], None) /\
+  on_packet s 1 [4; 1; 0] = (s, [], None) /\
+  on_packet s 1 [2; 1; 0] = (s, [], None) /\
+  stale_map_lookup [(1, 0%nat); (2, 0%nat)] 1 = Some 0%nat.
+Proof. exact ex_old_id_traffic_ignored. Qed.
+Print Assumptions C05_stale_id_map_refuted.
